@@ -878,6 +878,11 @@ class NRNsScan2dMinimizerImpl(
             warnreason: str
                 The description for the set warn flag.
         """
+        # Work on a float copy of the initials. The scan values are written into
+        # it, which must neither change the array of the caller nor get
+        # truncated to the (e.g. integer) data type of the caller's array.
+        initials = np.array(initials, dtype=np.float64)
+
         # The second parameter is the one of the first two parameters, which is
         # not the ns parameter.
         p2_pidx = 1 if kwargs.get('ns_pidx', 0) == 0 else 0
